@@ -42,7 +42,7 @@ Definition run_case (c : case) : bool * list N :=
       let stale := existsb (fun r => let '(k, ts, _) := r in
                               match read_at d' k ts now with
                               | None => false
-                              | Some e => negb (getres_eqb (GFound e) (res_of (read_at d k ts now)))
+                              | Some e => negb (getres_eqb (GFound e) (res_of (read_at d k max_u64 now)))
                               end) reads in
       (agree, [400 + cut; if stale then 410 else 0])
   end.
